@@ -92,7 +92,7 @@ CLAIMED = {
     engine="driver-ai"),
  "C11": dict(
     category="other",
-    text="A public key is the struct (rho, tr, t1-precompute). For get_public_key on every deserialisable and every generated private key, all three sets: D1 the derived rho is an unmodified copy of the private key's rho (exact-copy provenance tag through the abstract run); D2 the derived tr is an unmodified copy of the private key's tr, or is recomputed as H(.,64) over exactly PK_LEN bytes = rho followed by k 320-byte blocks, read once at offset 0 - a zeroed, partially rewritten or partially hashed tr is reported; D3 the matrix used is ExpandA(private key's rho) with FIPS index bytes/order; D4 Power2Round applied exactly once to a fully reduced t and exact on Z_q (C15 engine); D5 the derived key's precompute lies in the abstract class proved for generated/deserialised keys and verify / hash_verify / _internal_verify composed with a derived key violate no obligation. D6 the verification precompute is the same linear function of t1 modulo q in key generation, deserialisation and derivation (symbolic runs, all 256*256*k coefficients compared): keys with equal (rho, tr, t1) decide every input identically however they were built. Not decided: equality of the recomputed t1 with the generated one (ring arithmetic), hence not full behavioural equality.",
+    text="A public key is the struct (rho, tr, t1-precompute). For get_public_key on every deserialisable and every generated private key, all three sets: D1 the derived rho is an unmodified copy of the private key's rho (exact-copy provenance tag through the abstract run); D2 the derived tr is an unmodified copy of the private key's tr, or is recomputed as H(.,64) over exactly PK_LEN bytes = rho followed by k 320-byte blocks, read once at offset 0 - a zeroed, partially rewritten or partially hashed tr is reported; D3 the matrix used is ExpandA(private key's rho) with FIPS index bytes/order; D4 Power2Round applied exactly once to a fully reduced t and exact on Z_q (C15 engine); D5 the derived key's precompute lies in the abstract class proved for generated/deserialised keys and verify / hash_verify / _internal_verify composed with a derived key violate no obligation. D6 the verification precompute is the same linear function of t1 modulo q in key generation, deserialisation and derivation (symbolic runs, all 256*256*k coefficients compared): keys with equal (rho, tr, t1) decide every input identically however they were built. D7 the ring arithmetic of the derivation, symbolically: t = NTT^-1(A-hat o s1-hat) + NTT^-1(s2-hat) with the key's stored precomputes divided by the Montgomery factor; together with C04 K9/K10, C09 P5 and C18 F the derived t (hence t1) equals the generated one. Trusted: hash implementations, mathematics of the NTT.",
     design_ref="DESIGN.md §4 C11",
     note="Level 'other'. The suite's own byte comparison of derived vs generated keys covers t1 on its samples; tr (ignored by serialisation) is what this check decides exactly. Trusted: abstract interpreter soundness, hash model.",
     technique="abstract interpretation over monomorphic MIR with exact-copy provenance tags on byte arrays, hash absorb-list probes, obligation discharge under key-producer composition",
